@@ -1,5 +1,7 @@
 import ShootVerif.Proofs.MapperCtor
 import ShootVerif.Proofs.MapperPairs
+import ShootVerif.Proofs.MapperCtorClosed
+import ShootVerif.Proofs.MapperNameSpec
 /-!
 C15 — mapping through accessors/constructors equals plain field mapping.
 
@@ -76,6 +78,36 @@ theorem C15_set_once (inp : Input) (h1 : (plan inp).srcFields.Nodup) (h2 : (plan
     rcases this.2 a ha with h0 | ⟨f, _, _, _, _, _, _, h7⟩
     · exact hrd h0
     · exact (hinv.fromIn c (stmts_sub hc).1).2.1 (e ▸ h7)
+
+/-- headline: WHICH value every constructor argument carries — `makeCtorMatch` in closed form, both directions, all inputs
+    whose constructor parameters have distinct names. The constructor is used iff some parameter finds a value; its
+    arguments are, in parameter order, `ctorArgOf p`: the zero literal when a manual hook owns `p`, else the FIRST field of
+    the other side (in field-list order) that is readable (not a setter pseudo-field), name-matches `p` and whose type admits
+    `ctorStrat` (mapper method of exactly the types, else assignment, else a conversion other than string<->fixed-width
+    integer), with that strategy; the zero literal when there is none. (`C15_ctor_args` is the soundness half.) -/
+theorem C15_ctor_closed (inp : Input)
+    (hD : ((sideParams inp.dest inp.destNew).map (·.name)).Nodup) (hS : ((sideParams inp.src inp.srcNew).map (·.name)).Nodup) :
+    (plan inp).destCtor =
+      (if (sideParams inp.dest inp.destNew).any
+            (fun p => (ctorArgOf inp.conv inp.fns inp.nm (plan inp).srcFields inp.manualW p).rd.isSome) then
+        some ((sideParams inp.dest inp.destNew).map (ctorArgOf inp.conv inp.fns inp.nm (plan inp).srcFields inp.manualW))
+       else none) ∧
+    (plan inp).srcCtor =
+      (if (sideParams inp.src inp.srcNew).any
+            (fun p => (ctorArgOf inp.conv inp.fns (fun f p => inp.nm p f) (plan inp).destFields inp.readKeys p).rd.isSome) then
+        some ((sideParams inp.src inp.srcNew).map
+          (ctorArgOf inp.conv inp.fns (fun f p => inp.nm p f) (plan inp).destFields inp.readKeys))
+       else none) :=
+  ⟨ctorMatch_closed inp.conv inp.fns inp.nm _ _ inp.manualW (sideParams_isGet _ _) hD,
+   ctorMatch_closed inp.conv inp.fns (fun f p => inp.nm p f) _ _ inp.readKeys (sideParams_isGet _ _) hS⟩
+
+/-- refinement to C05, constructor part: the strategy of a constructor argument IS C05's decision `pairStrat` (the
+    function `C05_strategy` identifies with the property's priority list) for every pair of types on which that decision
+    is not a recursive ToX / FromX call; where it is, the constructor deviates — exactly finding region F_ctorNoSub -/
+theorem C15_ctor_follows_C05 (inp : Input) (rdPkg wrPkg : Pkg) (a b : Ty)
+    (h : ∀ s, pairStrat inp.conv (indexed inp.fns) rdPkg wrPkg a b = some s → isSubStrat s = false) :
+    ctorStrat inp.conv (indexed inp.fns) a b = pairStrat inp.conv (indexed inp.fns) rdPkg wrPkg a b :=
+  ctorStrat_pairStrat inp.conv (indexed inp.fns) rdPkg wrPkg a b h
 
 theorem uniqueClaimable_prop (inp : Input) (h : uniqueClaimable inp = true) :
     UniqueClaimable (pairs inp.nm (plan inp).srcFields (plan inp).destFields) := by
@@ -224,6 +256,16 @@ theorem C15_refines_partial (tm : List (String × String)) (ic : Bool) (n : Stri
       canNameMatch tm ic o { name := pascalS n, path := [pascalS n], ty := ty } := by
   simp [canNameMatch, Field.matchingName, hn, ho, hos]
 
+/-- refinement to C05, name-matching part for CONSTRUCTOR PARAMETERS: a parameter is matched under the raw name of its
+    unexported field (`backing`), and that gives exactly what the exported twin `Pascal(name)` of the field gives — with and
+    without -i, behind any tag map (ASCII names without underscores: Pascal-casing changes neither the camel form nor the
+    case-folded form of a name) -/
+theorem C15_param_names (tm : List (String × String)) (ic : Bool) (n : String) (ty : Ty) (path : List String) (o : Field)
+    (hn : n ≠ "") (ha : Ascii n.toList) (hu : NoUS n.toList) (hos : o.isSet = false) :
+    canNameMatch tm ic o { name := "Set" ++ pascalS n, path := path, ty := ty, backing := n } =
+      canNameMatch tm ic o { name := pascalS n, path := [pascalS n], ty := ty } :=
+  param_names tm ic n ty path o hn ha hu hos
+
 /-! ### non-vacuity -/
 
 /-- src {ID int; Name string; Wide int}  dest new {id int; name string (get); wide int64 (new-less)} -/
@@ -239,6 +281,9 @@ example : region15 exWF15 = "WF" ∧ obs15 exWF15 = spec15 exWF15 := by decide
 example : ((plan exWF15).destCtor.getD []).map (fun a => (a.p.name, a.rd.map (·.name), a.strat)) =
     [("SetId", some "ID", .assign), ("SetName", some "Name", .assign), ("SetWide", some "Wide", .conv)] := by decide
 example : (plan exWF15).srcFields.Nodup ∧ (plan exWF15).destFields.Nodup := by decide
+example : ((sideParams exWF15.dest exWF15.destNew).map (·.name)).Nodup ∧ ((sideParams exWF15.src exWF15.srcNew).map (·.name)).Nodup := by decide
+example : (sideParams exWF15.dest true).map (fun p => ((ctorArgOf exWF15.conv exWF15.fns exWF15.nm (plan exWF15).srcFields [] p).rd.map (·.name))) =
+    [some "ID", some "Name", some "Wide"] := by decide
 example : uniqueClaimable exWF15 = true ∧ uniquePairs exWF15 = false := by decide
 
 /-! ### repaired: inputs of former finding regions now satisfy the property (the model follows the repaired code) -/
